@@ -18,11 +18,27 @@ SW_IDLE = "idle_scheduler_skips_deadline"
 LAST_KNOWN_CONSTS = {"slice_length": 150, "default_max_loop": 10000, "waituntil_cap": 30000}
 
 
+def baseline_consts():
+    """the constants of translators/baseline/Consts.v (lib/vcommon.py run_translators puts that file in place of Gen/Consts.v when the
+    translator cannot read the source; the correspondence runs of C11 / C12 then decide whether they still fit the code)"""
+    import re
+    try:
+        txt = open(os.path.join(V.VERIF, "translators", "baseline", "Consts.v")).read()
+        g = lambda n: int(re.search(r"Definition %s : nat := (\d+)\." % n, txt).group(1))
+        return {"slice_length": g("slice_length"), "default_max_loop": g("default_max_loop"), "waituntil_cap": g("waituntil_cap_src")}
+    except Exception:
+        return None
+
+
 def build(thorough=False):
     try:
         consts = consts_translator.generate()
     except Exception as e:      # noqa: the source no longer has the shape the translator reads
-        consts = dict(LAST_KNOWN_CONSTS, _failed="translators/consts.py: " + str(e))
+        consts = baseline_consts()
+        if consts is not None:
+            consts["_fallback"] = "translators/consts.py: " + str(e)
+        else:
+            consts = dict(LAST_KNOWN_CONSTS, _failed="translators/consts.py: " + str(e))
     M.diag_translator.generate()
     M.overloads_translator.generate()
     himpl = V.build_harness("h_sched", "asan" if thorough else "plain")
